@@ -47,7 +47,8 @@ def explore_send_packet(ctx, addr_mode, statuses, confirm, ext=False, sr=None, d
               ("self._ezsp.send_unicast", send_out), ("self._ezsp.send_multicast", send_out), ("self._ezsp.send_broadcast", send_out),
               ("self._ezsp.set_extended_timeout", Outcomes(OK(None))), ("self._ezsp.set_source_route", Outcomes(OK(None))),
               ("asyncio.sleep", Outcomes(OK(None))),
-              ("await:req.result", confirm)]
+              ("with:self._pending.new", lambda px, t, a, k, fr: Obj(TypeRef("Request"), {"result": fut("confirmation")}, tag="req")),
+              ("await:confirmation", confirm)]
     px = PX(repo, models=models, inline=lambda g, aw: g.name in ("from_ember_status", "is_controller_running", "controller_event"),
             facts={"self.config[zigpy.config.CONF_SOURCE_ROUTING]": False}, max_paths=4000)
     cls = app_cls(ctx)
@@ -93,7 +94,7 @@ def r12_1(ctx):
             ss = sends(p)
             sts = [e.extra[0].name for e in ss]
             sleeps = [e for e in p.events if e.kind == "await" and e.what == "asyncio.sleep"]
-            conf = [e for e in p.events if e.kind == "await" and e.what == "req.result"]
+            conf = [e for e in p.events if e.kind == "await" and e.what == "confirmation"]
             pid = f"{am}:[{'/'.join(sts)}]" + (f"+confirm={str(conf[0].extra)[:34]}" if conf else "")
             bad = None
             want_cmd = {"NWK": "send_unicast", "IEEE": "send_unicast", "Group": "send_multicast", "Broadcast": "send_broadcast"}[am]
@@ -178,7 +179,7 @@ def r12_2(ctx):
             reg = [e for e in p.events if e.kind == "enter" and e.what == "self._pending.new"]
             ss = sends(p)
             setup_cmds = [e for e in p.events if e.kind == "await" and e.what in ("self._ezsp.set_extended_timeout", "self._ezsp.set_source_route")]
-            conf = [e for e in p.events if e.kind == "await" and e.what == "req.result"]
+            conf = [e for e in p.events if e.kind == "await" and e.what == "confirmation"]
             bad = None
             if len(reg) != 1 or not (reg[0].args and isinstance(reg[0].args[0], tuple) and len(reg[0].args[0]) == 2):
                 bad = f"pending entry registered {len(reg)} times / with key {[e.args for e in reg]!r}"
